@@ -17,13 +17,14 @@ LEVEL_TEXT = ("Full proof for the model: for every n>=2, every non-empty list of
               "characteristic 0 (C18_telescope). Tie: N' and the full flattened gate list incl. (theta,phi,lambda,gamma) of "
               "FnPointsInitialize(points, {n_output_values: N}).definition diffed against the executable model for every point "
               "subset with n<=3 (several orders and output assignments) and random sets to n<=6 (8 thorough). Oracle: full "
-              "Statevector of the definition vs closed form on x tensor |0> on g,c, all m=1..2^n for n<=4, sampled m for n=5; sparse "
-              "propagation of the real gate list for n=6..8.")
+              "Statevector of the definition vs closed form on x tensor |0> on g,c (zeros elsewhere and g,c cleanliness included): every "
+              "subset for n<=3, all m=1..2^n for n=4, sampled m for n=5 (all m thorough), shuffled orders, N=1..12 and the N' rule "
+              "with outputs beyond N; sparse propagation of the real gate list for n=6 (to 8 thorough).")
 LEVEL_NOTE = ("Trusted: Lean kernel (standard axioms), hand model <-> fnpoints.py beyond the explored sizes (the loops are uniform in "
               "n and m), qiskit x/cx/ccx/cu matrices (checked numerically each run), float arccos/sqrt/pi vs exact reals (compared "
               "to 1e-9), Python dict iteration order = insertion order.")
 LEAN_TARGETS = ["QclibModel.Props.C18"]
-THEOREMS = ["Qclib.C18_ladder", "Qclib.C18_telescope"]  # TEMP
+THEOREMS = ["Qclib.C18_ladder", "Qclib.C18_telescope", "Qclib.C18_state_general", "Qclib.C18_state", "Qclib.C18_nprime"]
 TRUSTED = [
     "qiskit x/cx/ccx/cu matrices equal Mat2.X / smul (e^{i gamma}) (matU theta phi lambda) of Sem/Denote.lean (validated numerically each run)",
     "float: -2*arccos(sqrt(p/(p+1))) and -s*2*pi/N' are compared to the model's Float parameters to 1e-9",
@@ -63,7 +64,7 @@ def tie_case(ctx, keys, svals, N):
         gate, circ = build(keys, svals, N)
         lines = [f"nprime {int(gate.n_output_values)} ;"] + to_lines(flatten(circ))
         ctx.count("tie:ok")
-    except (ZeroDivisionError, IndexError) as e:
+    except Exception as e:  # the model predicts which inputs the code rejects; anything else shows as a tie diff
         lines = [f"error_{type(e).__name__} ;"]
         ctx.count("tie:" + type(e).__name__)
     ctx.tie(op_of(keys, svals, N), lines)
@@ -250,7 +251,7 @@ def run(ctx, tie_nmax=None, or_nmax=None, sparse_nmax=None):
         for mask in range(1, 2 ** len(ks)):
             sub = [k for i, k in enumerate(ks) if (mask >> i) & 1]
             for o in orders(ctx, sub, 1 if quick else 3):
-                for svals, N in assignments(ctx, len(sub), 1 if quick else 2)[(0 if n == 2 or not quick else 2):]:
+                for svals, N in assignments(ctx, len(sub), 1 if quick else 3):
                     tie_case(ctx, o, svals, N)
     # ---- tie: random sets for larger n
     tie_nmax = tie_nmax or (6 if quick else 8)
@@ -274,8 +275,8 @@ def run(ctx, tie_nmax=None, or_nmax=None, sparse_nmax=None):
     ctx.notes.append("F-C18-1 (not alarmed): with n_output_values omitted and max s = 1 the code computes N' = 0 and raises "
                      "ZeroDivisionError; the property presupposes a requested N >= 1, so this input is outside the quantifier. "
                      "The model rejects the same inputs (tied).")
-    ctx.notes.append("declared num_qubits (n) differs from the definition's width (2n+1): property C15's business; the oracle "
-                     "is built from .definition directly")
+    ctx.notes.append("the oracle is built from .definition directly (x,g,c = 2n+1 qubits); the gate's declared num_qubits is "
+                     "property C15's business")
 
     # ---- oracle: dense, all subsets n <= 3, all m for n = 4, sampled m for n = 5
     or_nmax = or_nmax or 5
@@ -283,16 +284,14 @@ def run(ctx, tie_nmax=None, or_nmax=None, sparse_nmax=None):
         ks = all_keys(n)
         for mask in range(1, 2 ** len(ks)):
             sub = [k for i, k in enumerate(ks) if (mask >> i) & 1]
-            if n == 3 and quick and r.random() < 0.5 and len(sub) not in (1, 8):
-                continue
-            for o in orders(ctx, sub, 1)[(1 if quick and n == 3 else 0):]:
+            for o in orders(ctx, sub, 1 if quick else 2)[(1 if quick and n == 3 else 0):]:
                 svals, N = r.choice(assignments(ctx, len(sub), 2)[:2] + assignments(ctx, len(sub), 2)[3:])
                 oracle_case(ctx, o, svals, N, "subset")
     for n in range(4, or_nmax + 1):
         ks = all_keys(n)
         ms = list(range(1, 2 ** n + 1))
-        if n >= 5:
-            ms = sorted({1, 2, 2 ** n - 1, 2 ** n} | set(r.sample(ms, 4 if quick else 12)))
+        if n >= 5 and quick:
+            ms = sorted({1, 2, 2 ** n - 1, 2 ** n} | set(r.sample(ms, 8)))
         for m in ms:
             for rep_i in range(1 if quick else 2):
                 keys = r.sample(ks, m)             # shuffled order
